@@ -13,7 +13,7 @@ import hashlib
 
 from hypothesis import strategies as st
 
-from vlib.runner import good, bad, HarnessError
+from vlib.runner import good, bad, HarnessError, BaselineBroken
 from vlib.det import DET
 from vlib import scenario as sc
 
@@ -49,7 +49,7 @@ DECODE_ERRORS = (SyntaxError, TLSIllegalParameterException, TLSDecodeError)
 
 def init(tier, seed):
     DET.install()
-    corpus()
+    pass
 
 
 # ---------------------------------------------------------------------------
@@ -157,8 +157,7 @@ def _run_flavour(name, f, log):
     DET.reseed("C15", name)
     p = sc.connect(client, server, prepare=prepare)
     if not p.both_ok:
-        raise HarnessError("corpus flavour %s failed: %r %r" % (
-            name, p.co, p.so))
+        raise BaselineBroken("corpus-flavour:" + name, "%r %r" % (p.co, p.so))
     # trigger post-handshake messages (tickets)
     sc.do_write(p, "s", b"x")
     sc.read_all(p, "c")
@@ -169,15 +168,26 @@ def _run_flavour(name, f, log):
         DET.reseed("C15", name, "resume")
         q = sc.connect(client2, server, prepare=prepare)
         if not q.both_ok:
-            raise HarnessError("resume flavour failed %r %r" % (q.co, q.so))
+            raise BaselineBroken("corpus-resume:" + name, "%r %r" % (q.co, q.so))
     return p
 
 
 def corpus():
     """List of dicts {name, bytes, ctx}. Deterministic."""
     global _corpus
+    if isinstance(_corpus, BaselineBroken):
+        raise _corpus
     if _corpus is not None:
         return _corpus
+    try:
+        return _build_corpus()
+    except BaselineBroken as e:
+        _corpus = e
+        raise
+
+
+def _build_corpus():
+    global _corpus
     out = []
     seen = set()
     for name, f in FLAVOURS:
